@@ -94,10 +94,6 @@ theorem build_md_range (text : List Char) (df : T) (hdf : df.rule = .date_from) 
 theorem optYearWf_iff (y : Option Nat) : OH.Spec.Sent.optYearWf y = true ↔ okYearOpt y = true := by
   cases y <;> simp [OH.Spec.Sent.optYearWf, okYearOpt, yearWf_iff]
 
-theorem optYear_text (y : Option Nat) :
-    (match y with | some y => OH.Spec.Sent.dec y | none => []) = yearStr y := by
-  cases y <;> simp [yearStr, dec_eq_natStr]
-
 def monthsText (y : Option Nat) (a b : Nat) (dash : Bool) : List Char :=
   yearStr y ++ (Print.monthStr a ++ (if dash then '-' :: Print.monthStr b else []))
 
@@ -147,6 +143,7 @@ theorem run_md_months (y : Option Nat) (hy : okYearOpt y = true) (a b : Nat) (ha
     simp only [mdAlt4, run_seq, hyr, hmon, htail, R.append]
     simp
   simp only [g_monthday_range_eq, run_rule, run_alt, Bool.or_self, h1, h2, h3, h4]
+  simp
 
 theorem build_md_months (text : List Char) (y : Option Nat) (hy : okYearOpt y = true) (a b : Nat)
     (ha : 1 ≤ a ∧ a ≤ 12) (hb : 1 ≤ b ∧ b ≤ 12) (dash : Bool) :
@@ -169,10 +166,10 @@ theorem parses_md_month (y : Option Nat) (a : Nat) (h : (MdRange.month y a).wf =
       (MdRange.month y a).denote := by
   simp only [OH.Spec.Sent.MdRange.wf, Bool.and_eq_true, monthWf_iff, optYearWf_iff] at h
   have e : (MdRange.month y a).render = monthsText y a a false := by
-    simp [MdRange.render, optYear_text, monthName_eq, monthsText]
+    cases y <;> simp [MdRange.render, yearStr, dec_eq_natStr, monthName_eq, monthsText]
   rw [e]
   exact ⟨_, run_md_months y h.1 a a h.2 h.2 false rest (fun _ => hf.nodigit) (fun _ => hf.noday)
-    (fun _ => hf.nominus), by simpa using build_md_months _ y h.1 a a h.2 h.2 false⟩
+    (fun _ => hf.nominus), by simpa [MdRange.denote] using build_md_months _ y h.1 a a h.2 h.2 false⟩
 
 theorem parses_md_months (y : Option Nat) (a b : Nat) (h : (MdRange.months y a b).wf = true)
     (rest : List Char) :
@@ -180,10 +177,10 @@ theorem parses_md_months (y : Option Nat) (a b : Nat) (h : (MdRange.months y a b
       (MdRange.months y a b).denote := by
   simp only [OH.Spec.Sent.MdRange.wf, Bool.and_eq_true, monthWf_iff, optYearWf_iff] at h
   have e : (MdRange.months y a b).render = monthsText y a b true := by
-    simp [MdRange.render, optYear_text, monthName_eq, monthsText]
+    cases y <;> simp [MdRange.render, yearStr, dec_eq_natStr, monthName_eq, monthsText]
   rw [e]
   exact ⟨_, run_md_months y h.1.1 a b h.1.2 h.2 true rest (fun h => by cases h) (fun h => by cases h)
-    (fun h => by cases h), by simpa using build_md_months _ y h.1.1 a b h.1.2 h.2 true⟩
+    (fun h => by cases h), by simpa [MdRange.denote] using build_md_months _ y h.1.1 a b h.1.2 h.2 true⟩
 
 /-! ### single dates `Jan 5`, `2020Jan5 +2 days`, and open ends `Jan 5+`, `Jan 5+Mo+` -/
 
@@ -349,7 +346,7 @@ theorem parses_md_range (d1 : SDate) (o1 : SOffset) (s1 s2 : Bool) (d2 : SDate) 
       d1.render ++ (o1.render ++ (sp s1 ++ ('-' :: (sp s2 ++ (d2.render ++ o2.render))))) := by
     simp [MdRange.render, List.append_assoc]
   rw [e]
-  refine ⟨.node .monthday_range _ (sdTree d1 :: k1 ++ .node .date_to d2.render [sdTree d2] :: k2), ?_, ?_⟩
+  refine ParsesTo.mk' .monthday_range (sdTree d1 :: k1 ++ .node .date_to d2.render [sdTree d2] :: k2) ?_ ?_
   · simp only [List.append_assoc, List.cons_append]
     simp only [g_monthday_range_eq, run_rule, run_alt, Bool.or_self, hrun]
     simp
@@ -395,8 +392,8 @@ theorem parses_md_toDay (y : Option (Nat × Bool)) (m : Nat) (s : Bool) (d : Sma
       subst h3
       simp [h1, h2, h4] at hov
   rw [e, hden]
-  refine ⟨.node .monthday_range _ (sdTree (.fixed y m s d) :: k1 ++ .node .date_to d2.render [dnTree d2] :: k2),
-    ?_, ?_⟩
+  refine ParsesTo.mk' .monthday_range
+    (sdTree (.fixed y m s d) :: k1 ++ .node .date_to d2.render [dnTree d2] :: k2) ?_ ?_
   · simp only [List.append_assoc, List.cons_append]
     simp only [g_monthday_range_eq, run_rule, run_alt, Bool.or_self, hrun]
     simp
